@@ -27,6 +27,8 @@ func init() {
 			{ID: "C14.R3", Floor: 3, Run: c06r3, Text: "removed data is zeroed (= C06.R3 / C01.R4): shrinking a table zeroes the vacated rows (typed SetZero or zero-copy)"},
 			{ID: "C14.R4", Floor: 4, Run: c14r4, Text: "typed, retained buffers: every value stored into archetypeData.buffers / entityBuffer is reflect.New(reflect.ArrayOf(n, T)).Elem() with T the column's registered type (node.Types[i], the old buffer's element type, or the entity type); every value stored into layout.pointer / entityPointer is X.Addr().UnsafePointer() of such a retained buffer"},
 			{ID: "C14.R5", Floor: 3, Run: c01r7, Text: "swap-remove moves every column (= C01.R7): a column skipped on removal leaves the surviving entity pointing at the removed entity's referent"},
+			{ID: "C14.R6", Floor: 3, Run: columnEffectsComplete, Text: "per-column effects are not skipped (= C01.R12)"},
+			{ID: "C14.R7", Floor: 2, Run: idsNotFabricated, Text: "component ids in per-column loops come from the table's id list (= C01.R13): zeroing by buffer position clears the wrong columns"},
 		},
 	})
 }
